@@ -19,12 +19,13 @@ func TestMain(m *testing.M) { fix.Main(m) }
 
 // Bitmap shapes.
 const (
-	ShEmpty  = iota
-	ShArray  // ~100 B
-	ShBitmap // one bitmap container, ~8 KiB
-	ShRuns   // run containers
-	ShMulti  // several containers
-	ShLarge  // ~64 KiB
+	ShEmpty    = iota
+	ShArray    // ~100 B
+	ShBitmap   // one bitmap container, ~8 KiB
+	ShRuns     // run containers
+	ShMulti    // several containers
+	ShLarge    // ~64 KiB
+	ShManyRuns // 40 run containers: serialised size much smaller than the in-memory size
 	nShapes
 )
 
@@ -56,7 +57,7 @@ func (c *Case) Summary() string {
 	return b.String()
 }
 
-var shapeName = []string{"empty", "array", "bitmap", "runs", "multi", "large"}
+var shapeName = []string{"empty", "array", "bitmap", "runs", "multi", "large", "manyruns"}
 
 var templates = func() []*roaring.Bitmap {
 	t := make([]*roaring.Bitmap, nShapes)
@@ -84,6 +85,9 @@ var templates = func() []*roaring.Bitmap {
 			t[ShLarge].Add(c<<16 + i)
 		}
 	}
+	t[ShManyRuns] = roaring.New()
+	t[ShManyRuns].AddRange(5, 40<<16)
+	t[ShManyRuns].RunOptimize()
 	return t
 }()
 
@@ -389,7 +393,84 @@ func drawCase(t *rapid.T) *Case {
 	return c
 }
 
+// ---------------------------------------------------------------- same object stored again after it grew
+
+// RePutCase: Put(k, bm); the caller adds values to bm; Put(k, bm) again with
+// the very same object.  After that second Put returned the byte bound must
+// hold for what is retrievable (the overwrite clause of the property), and the
+// hit must return the object.
+type RePutCase struct {
+	Cap    uint64
+	Others int // other small entries stored before
+	Grow   int // values added before the second Put
+	Chunks int // spread over this many 64K chunks
+}
+
+func (c *RePutCase) Summary() string {
+	return fmt.Sprintf("re-put grown: cap=%d, %d other entries, Put(k,bm), bm grows by %d values over %d chunks, Put(k,bm) again (same object)", c.Cap, c.Others, c.Grow, c.Chunks)
+}
+
+func rePutOracle(c *RePutCase) error {
+	return fix.Safe(func() error {
+		cache := updog.NewLRUCache(c.Cap)
+		for i := 0; i < c.Others; i++ {
+			cache.Put(uint64(100+i), mk(ShArray, i))
+		}
+		bm := roaring.New()
+		bm.Add(1)
+		cache.Put(7, bm)
+		for i := 0; i < c.Grow; i++ {
+			bm.Add(uint32(i%c.Chunks)<<16 + uint32(i*3))
+		}
+		cache.Put(7, bm)
+		var total uint64
+		for k := uint64(0); k < uint64(100+c.Others); k++ {
+			if k != 7 && k < 100 {
+				continue
+			}
+			if got, ok := cache.Get(k); ok {
+				total += got.GetSizeInBytes()
+				if k == 7 && !got.Equals(bm) {
+					return fmt.Errorf("hit for the re-stored key returns another bitmap")
+				}
+			}
+		}
+		if total > c.Cap {
+			return fmt.Errorf("after storing the grown bitmap again under its key, retrievable bitmaps sum to %d bytes > capacity %d", total, c.Cap)
+		}
+		if bm.GetSizeInBytes()+slack <= c.Cap {
+			if _, ok := cache.Get(7); !ok {
+				return fmt.Errorf("the re-stored bitmap (%d bytes) fits capacity %d but is not retrievable", bm.GetSizeInBytes(), c.Cap)
+			}
+		}
+		return nil
+	})
+}
+
+func drawRePut(t *rapid.T) *RePutCase {
+	return &RePutCase{
+		Cap:    rapid.SampledFrom([]uint64{300, 1000, 4096, 9000, 20000, 100000}).Draw(t, "cap"),
+		Others: rapid.IntRange(0, 30).Draw(t, "others"),
+		Grow:   rapid.SampledFrom([]int{1, 50, 2000, 5000, 40000}).Draw(t, "grow"),
+		Chunks: rapid.SampledFrom([]int{1, 2, 8}).Draw(t, "chunks"),
+	}
+}
+
+func runRePut(t interface{ Fatalf(string, ...any) }, c *RePutCase) {
+	evid.Case(true, c.Summary(), "re-put-grown")
+	if err := rePutOracle(c); err != nil {
+		fix.Fail(t, prop, "reput", c, c.Summary(), err)
+	}
+}
+
 func replay(cf *evid.CaseFile) error {
+	if cf.Sub == "reput" {
+		var c RePutCase
+		if err := evid.Decode(cf.Gob, &c); err != nil {
+			return err
+		}
+		return rePutOracle(&c)
+	}
 	var c Case
 	if err := evid.Decode(cf.Gob, &c); err != nil {
 		return fmt.Errorf("undecodable case: %v", err)
@@ -404,6 +485,7 @@ func TestQuick(t *testing.T) {
 		exhaustive(t, L)
 	}
 	fix.Check(t, "random", 3000, func(rt *rapid.T) { run(rt, drawCase(rt), "random") })
+	fix.Check(t, "reput", 300, func(rt *rapid.T) { runRePut(rt, drawRePut(rt)) })
 }
 
 func TestThorough(t *testing.T) {
@@ -414,6 +496,7 @@ func TestThorough(t *testing.T) {
 		exhaustive(t, L)
 	}
 	fix.Check(t, "random", 100000, func(rt *rapid.T) { run(rt, drawCase(rt), "random") })
+	fix.Check(t, "reput", 3000, func(rt *rapid.T) { runRePut(rt, drawRePut(rt)) })
 }
 
 func TestReplay(t *testing.T) {
